@@ -83,6 +83,16 @@ fn gen(prop: &str, rng: &mut Rng, n: usize) -> Vec<String> {
             for _ in 0..(n / 100).max(5) {
                 v.push(sysloop::gen_sys(rng));
             }
+            // "no sequence of peer events makes the manager panic": announcements of pieces on and just behind the end of the
+            // torrent, before and after a bitfield, in the closed loop (the task must stop them; the manager must survive)
+            for np in [1usize, 3, 8, 9] {
+                for i in [np - 1, np, np + 1, 0xffff_ffff] {
+                    let hs = format!("f0:hs,{},{}", sysloop::PLACEHOLDER, "x4141414141414141414141414141414141414141");
+                    let bf = format!("f0:bf,x{}", "00".repeat((np + 7) / 8));
+                    let mid = if rng.coin() { format!(";{}", bf) } else { String::new() };
+                    v.push(format!("sys {} 100 {} a0;{}{};f0:hv,{};f0:un", np, rng.next() % 1_000_000, hs, mid, i));
+                }
+            }
             // ... and the connection bookkeeping that creates and replaces the peer records the reservations hang on
             v.extend(sess::gen_cand(rng, (n / 50).max(10)));
             v
